@@ -16,7 +16,8 @@ RULE = ('every raster over {0,1,NaN} with at most 6 cells (quick) / 9 cells plus
         '(all 8 rotations/reflections, sizes up to 9x9, optional NaN cells); random rasters up to 12x12 over alphabets of 2-4 integers '
         'with NaN cells; float64/float32/int64/int32; a dtype family (int8..uint64, bool, float32: small rasters, 12..17-wide checkerboards '
         'with more regions than an 8-bit label can count, 20..30-wide rasters, negative ids and ids > 2**24, four dimension namings, '
-        'rasters without coordinate labels, the name argument); neighbourhoods other than 4/8 must raise ValueError; a small +-inf family (correspondence only: outside the integer-valued domain). '
+        'rasters without coordinate labels, the name argument); a memory-layout stream (the same logical U/S/spiral/comb/checkerboard/'
+        'diagonal/ring/random raster C-contiguous, F-contiguous, as a transposed view, as a strided+reversed view, read-only, byte-swapped); neighbourhoods other than 4/8 must raise ValueError; a small +-inf family (correspondence only: outside the integer-valued domain). '
         'A case is non-trivial when some component has >= 3 cells or the raster has >= 2 components of the same value.')
 TRUSTED = [
     'cell values are integers of magnitude < 10^5 (or NaN): there np.isclose-style `|a-v| <= 1e-8 + 1e-5|v|` is exact equality, which is '
@@ -25,7 +26,7 @@ TRUSTED = [
     'only in-range cells are ever read because every window index is clamped',
     'the xarray wrapper (dims/coords/attrs/name) is checked by the Python oracle only',
 ]
-ASSUMPTIONS = ['NumPy backend; neighborhood in {4, 8}; integer-valued cells with |v| < 10^5 or NaN (the property\'s quantifier: small alphabets); '
+ASSUMPTIONS = ['native byte order (Numba rejects byte-swapped arrays with a TypingError in every kernel: counted, not a violation); NumPy backend; neighborhood in {4, 8}; integer-valued cells with |v| < 10^5 or NaN (the property\'s quantifier: small alphabets); '
                'labels are counted in int64 for bool/integer rasters (after fixes/C16-regions-label-dtype.diff) and in the raster dtype for floats: '
                'exact below 2^24 regions for float32']
 PARTIAL = [
@@ -135,11 +136,34 @@ DIMS = [('lat', 'lon'), ('y', 'x'), ('x', 'y'), ('row', 'col')]
 KEY_WRAP = 'regions-labels-wrap-in-input-dtype'
 
 
+LAYOUTS = ['C', 'F', 'T', 'strided', 'readonly', 'nonnative']
+
+
+def apply_layout(a, layout):
+    """the same logical 2-D array in another memory layout"""
+    if layout == 'F':                       # column-major, owning
+        return np.asfortranarray(a)
+    if layout == 'T':                       # transposed view of a C-contiguous (cols, rows) array
+        return np.ascontiguousarray(a.T).T
+    if layout == 'strided':                 # every second row, columns reversed, of a larger array: neither C nor F contiguous
+        base = np.full((2 * a.shape[0] + 1, a.shape[1] + 2), 3, dtype=a.dtype)
+        view = base[1:2 * a.shape[0]:2, a.shape[1]:0:-1]
+        view[...] = a
+        return view
+    if layout == 'readonly':
+        a = a.copy()
+        a.setflags(write=False)
+        return a
+    if layout == 'nonnative':               # byte-swapped dtype (Numba refuses these loudly: see ASSUMPTIONS)
+        return a.astype(a.dtype.newbyteorder()) if a.dtype.itemsize > 1 else a
+    return a
+
+
 def build(case):
     a = np.array(case['data'], dtype='float64')
     if not case['dtype'].startswith('float'):
         a = np.nan_to_num(a, nan=0.0)
-    a = a.astype(case['dtype'])
+    a = apply_layout(a.astype(case['dtype']), case.get('layout', 'C'))
     rows, cols = a.shape
     dy, dx = DIMS[case.get('dims', 0)]
     if case.get('nocoords'):
@@ -168,6 +192,9 @@ def run_case(ctx, zonal, case, oracle=True):
         kw = {'name': case['name']} if case.get('name') else {}
         res = zonal.regions(src, neighborhood=case['n'], **kw)
     except Exception as e:
+        if case.get('layout') == 'nonnative' and type(e).__name__ == 'TypingError':
+            ctx.count('layout/nonnative-rejected-by-numba')       # loud refusal of a byte-swapped array: outside the domain
+            return None
         ctx.violation('oracle', 'regions raised %s: %s' % (type(e).__name__, str(e)[:200]), case)
         return None
     data = to_floats(src.data)
@@ -423,6 +450,49 @@ def check_invalid_neighborhood(ctx):
                       dict(n=n, dtype='float64', data=[[0.0, 1.0], [1.0, 0.0]], invalid_neighborhood=True))
 
 
+def layout_dtype(ctx, layout, i, dts):
+    """quick tier: every (layout, dtype) pair is one more ~3 s Numba compilation of the kernel, so pair them sparingly
+    (integer rasters of any width reach the kernel as int64)"""
+    if not ctx.quick():
+        return dts[i % len(dts)]
+    if layout == 'strided':
+        return 'float64'
+    if layout == 'readonly':
+        return ['int64', 'int32', 'uint8'][i % 3]
+    return dts[i % len(dts)]
+
+
+def gen_layouts(ctx, count):
+    """the same logical raster C-contiguous, F-contiguous, as a transposed view, as a strided/reversed view, read-only and
+    byte-swapped: shapes whose components need second-pass merges (U, S, spiral, comb, 8-connected checkerboard/diagonals)
+    plus random rasters; the expected labels do not depend on the layout"""
+    rng = ctx.rng
+    dts = ['float64', 'int64', 'int32', 'uint8'] + ([] if ctx.quick() else ['float32', 'int16'])
+    makers = [('U', shape_U), ('S', shape_S), ('spiral', shape_spiral), ('comb', shape_comb), ('checker', shape_checker),
+              ('diag', shape_diag), ('ring', shape_ring)]
+    i = 0
+    while i < count:
+        for name, fn in makers:
+            for layout in (LAYOUTS[1:4] if ctx.quick() else LAYOUTS[1:5]) + ['C']:
+                i += 1
+                k = rng.choice([3, 4, 5, 6, 7, 9])
+                g = rng.choice(dihedral(fn(k)))
+                if rng.random() < 0.3 and k > 3:
+                    g = g[:k - 1]                     # non-square
+                a, b = rng.sample([0, 1, 2, 5, 7], 2)
+                data = [[float(a if v == 0 else b) for v in row] for row in g]
+                n = 8 if name in ('checker', 'diag') and rng.random() < 0.8 else rng.choice([4, 8])
+                yield 'layout/%s/%s' % (layout, name), dict(n=n, dtype=layout_dtype(ctx, layout, i, dts), data=data, layout=layout)
+        # a failed Numba typing is not cached (~1 s each): only a few byte-swapped cases
+        for layout in (LAYOUTS[1:4] if ctx.quick() else LAYOUTS[1:5]) + (['nonnative'] if i < 40 or not ctx.quick() else []):
+            i += 1
+            rows, cols = rng.randint(1, 9), rng.randint(1, 9)
+            dtype = layout_dtype(ctx, layout, i, dts)
+            pn = 0.1 if dtype.startswith('float') else 0
+            data = [[NAN if rng.random() < pn else float(rng.choice([0, 1, 1, 2])) for _ in range(cols)] for _ in range(rows)]
+            yield 'layout/%s/random' % layout, dict(n=rng.choice([4, 8]), dtype=dtype, data=data, layout=layout)
+
+
 def gen_inf(ctx, count):
     rng = ctx.rng
     for i in range(count):
@@ -469,6 +539,7 @@ def run(ctx):
         check_invalid_neighborhood(ctx)
         run_cases(ctx, gen_dense8(ctx, 300), light=True)
         run_cases(ctx, gen_inf(ctx, 800))
+        run_cases(ctx, gen_layouts(ctx, 240))
     else:
         run_cases(ctx, gen_exhaustive(ctx, 9), light=True)
         run_cases(ctx, gen_exhaustive(ctx, 16, alphabet=(0.0, 1.0), shapes=[(3, 4), (4, 3), (4, 4), (2, 7), (7, 2)]), light=True)
@@ -478,6 +549,7 @@ def run(ctx):
         check_invalid_neighborhood(ctx)
         run_cases(ctx, gen_dense8(ctx, 6000), light=True)
         run_cases(ctx, gen_inf(ctx, 6000))
+        run_cases(ctx, gen_layouts(ctx, 4000))
     ctx.exhaustive = False
 
 
@@ -508,7 +580,7 @@ def replay_case(ctx, case):
     def unjson(v):
         return {'nan': NAN, 'inf': float('inf'), '-inf': float('-inf')}.get(v, v) if isinstance(v, str) else float(v)
     c = dict(n=case['n'], dtype=case['dtype'], data=[[unjson(v) for v in row] for row in case['data']])
-    for k in ('dims', 'nocoords', 'name', 'extra_coords'):
+    for k in ('dims', 'nocoords', 'name', 'extra_coords', 'layout'):
         if k in case:
             c[k] = case[k]
     ctx.case(c)
